@@ -32,6 +32,9 @@ class HistC:
         return "\n".join([self.header()] + self.ops) + "\n"
 
     def newval(self, rng):
+        # v0 is None: a stored None is a value like any other (wrapper get / setdefault / pop / values)
+        if rng.random() < 0.07:
+            return 0
         # mostly fresh value objects; sometimes one that is already stored elsewhere
         if self.vals and rng.random() < 0.12:
             return rng.choice(self.vals)
@@ -222,7 +225,7 @@ def gen_history(hid, rng, prop, tier):
     if prop == "C13" and h.vals and rng.random() < 0.25:
         # a stored value refers to an iterator over its own tree: only the cyclic garbage
         # collector can release the tree once the caller has dropped it
-        v = h.newval(rng)
+        v = h.newval(rng) or h.newval(rng) or 1      # never v0 (None cannot refer to anything)
         k = base + rng.randrange(U)
         h.add(f"set {k}.0 v{v}")
         h.live.add(k)
